@@ -225,6 +225,15 @@ def domains(spec):
     return "real", "real"
 
 
+def without_dropout(spec):
+    """The same spec with every dropout probability set to zero (recursively)."""
+    if isinstance(spec, dict):
+        return {k: (0.0 if k == "dropout" else without_dropout(v)) for k, v in spec.items()}
+    if isinstance(spec, list):
+        return [without_dropout(v) for v in spec]
+    return spec
+
+
 def label(spec):
     f = spec["family"]
     v = spec.get("variant", "")
@@ -482,8 +491,8 @@ def _build(spec):
         if v == "DiagonalNormal":
             d = D.DiagonalNormal(list((n,)))
             with torch.no_grad():
-                d.mean_.add_(torch.randn(1, n))
-                d.log_std_.add_(0.3 * torch.randn(1, n))
+                for i, (_, p) in enumerate(sorted(d.named_parameters())):
+                    p.add_((1.0 if i == 0 else 0.3) * torch.randn(p.shape))
             return Entry(d, "dist", (n,), sample=False)
         if v == "Bernoulli":
             enc = _encoder(spec, spec["ctx"], n) if spec["encoder"] else None
